@@ -799,3 +799,77 @@ pub fn jst<T: JsTuple>(ev: u32, t: T) -> T {
 pub fn tr<T: TrRes>(ev: u32, t: T) -> Result<T::Out, ETok> {
     t.tr(ev)
 }
+
+// ------------------------------------------------------------------------------------------
+// streams (async kinds): every item is a gate
+// ------------------------------------------------------------------------------------------
+
+/// Stream of plan-decided length whose every item is a gate future (event `ev`, occurrence = item index
+/// in creation order). End of stream is immediate.
+pub struct SimStream<T> {
+    ev: u32,
+    remaining: Option<usize>,
+    cur: Option<Gate<T>>,
+}
+impl<T> Unpin for SimStream<T> {}
+
+pub fn sinit<T: Gen + Send + 'static>(ev: u32) -> SimStream<T> {
+    SimStream { ev, remaining: None, cur: None }
+}
+
+impl<T: Gen + Send + 'static> futures_core::Stream for SimStream<T> {
+    type Item = T;
+    fn poll_next(mut self: Pin<&mut Self>, cx: &mut std::task::Context<'_>) -> std::task::Poll<Option<T>> {
+        if self.remaining.is_none() {
+            let seed = lock().plan.input_seed;
+            let n = if seed == 0 { 2 } else { (mix(mix(seed, self.ev as u64 ^ 0x57), 1) % 4) as usize };
+            self.remaining = Some(n);
+        }
+        if self.cur.is_none() {
+            if self.remaining == Some(0) {
+                return std::task::Poll::Ready(None);
+            }
+            let ev = self.ev;
+            self.cur = Some(Gate::new(ev, 0, move |occ, fail| gen_value::<T>(ev, occ, fail, 0x5)));
+        }
+        match Pin::new(self.cur.as_mut().unwrap()).poll(cx) {
+            std::task::Poll::Pending => std::task::Poll::Pending,
+            std::task::Poll::Ready(v) => {
+                self.cur = None;
+                self.remaining = self.remaining.map(|r| r - 1);
+                std::task::Poll::Ready(Some(v))
+            }
+        }
+    }
+}
+
+/// &X -> Gate<bool>   (StreamExt::filter)
+pub fn ap<X: Val>(ev: u32) -> impl Fn(&X) -> Gate<bool> + Copy + Send + Sync + 'static {
+    move |x: &X| {
+        let d = x.dg();
+        Gate::new(ev, d, move |_occ, _fail| mix(mix(salt(), ev as u64), d) % 4 != 0)
+    }
+}
+/// X -> Gate<Option<X>>   (StreamExt::filter_map)
+pub fn afm<X: Val + Send + 'static>(ev: u32) -> impl Fn(X) -> Gate<Option<X>> + Copy + Send + Sync + 'static {
+    move |x: X| {
+        let d = x.dg();
+        Gate::new(ev, d, move |_occ, _fail| if mix(mix(salt(), ev as u64 ^ 0xF), d) % 3 == 0 { None } else { Some(x.stamp(ev)) })
+    }
+}
+/// (Tok, X) -> Gate<Tok>   (StreamExt::fold)
+pub fn af2<X: Val + Send + 'static>(ev: u32) -> impl Fn(Tok, X) -> Gate<Tok> + Copy + Send + Sync + 'static {
+    move |acc: Tok, x: X| {
+        let d = mix(acc.dg(), x.dg());
+        drop(x);
+        Gate::new(ev, d, move |_occ, _fail| acc.stamp(ev).stamp((d & 0xFFFF) as u32))
+    }
+}
+/// (Tok, X) -> Gate<Result<Tok, ETok>>   (TryStreamExt::try_fold)
+pub fn atf2<X: Val + Send + 'static>(ev: u32) -> impl Fn(Tok, X) -> Gate<Result<Tok, ETok>> + Copy + Send + Sync + 'static {
+    move |acc: Tok, x: X| {
+        let d = mix(acc.dg(), x.dg());
+        drop(x);
+        Gate::new(ev, d, move |_occ, fail| if fail { Err(ETok::new(mix(d, ev as u64))) } else { Ok(acc.stamp(ev).stamp((d & 0xFFFF) as u32)) })
+    }
+}
